@@ -72,8 +72,14 @@ def gen_value(ch, depth=0, hashable=False):
     if k == "dict":
         n = ch.randint(0, 4, "dlen")
         items, seen = [], set()
+        dstyle = ch.choose(4, "dstyle")  # 0,1 generic keys; 2 frozenset keys; 3 tuples holding frozensets
         for _ in range(n):
-            kk = gen_value(ch, depth + 1, hashable=True)
+            if dstyle >= 2 and depth < 2:
+                # keys that are only partially ordered (frozensets compare by inclusion)
+                fs = {"t": "frozenset", "v": [{"t": "str", "v": ["a", "b", "c", "d"][ch.choose(4, "s")]} for _ in range(ch.randint(0, 3, "inner"))]}
+                kk = fs if dstyle == 2 else {"t": "tuple", "v": [fs, {"t": "int", "v": ch.choose(3, "int")}]}
+            else:
+                kk = gen_value(ch, depth + 1, hashable=True)
             try:
                 pv = _pyval(kk)
                 if pv in seen:
@@ -152,7 +158,7 @@ def features(spec, out=None):
     elif t == "dict":
         if len(spec["items"]) >= 2:
             out.add("multi")
-            if spec["items"][0][0]["t"] == "frozenset":
+            if spec["items"][0][0]["t"] in ("frozenset", "tuple"):
                 out.add("frozenset_keyed_dict")
         for k, v in spec["items"]:
             features(k, out)
